@@ -159,7 +159,7 @@ def run(args) -> int:
                     for key in flip_keys('rename', n, bad):
                         chk.violation(key, f"{n}: {base['argstr']} is {base['cls']} but its renaming {x['argstr']} is {x['cls']}", rep)
     chk.assumptions = props_assumptions('C10')
-    chk.theorems = ['C10_reflexive', 'C10_monotone', 'C10_rename']
+    chk.theorems = ['C10_reflexive', 'C10_monotone', 'C10_rename', 'C10_monotone_all_structures', 'C10_rename_all_structures']
     chk.rule = ('metamorphic pairs on the real prover: conclusion copied from a premise; one random premise added; random injective renaming '
                 'of letters, constants, predicates, variables (with subscripts); random modal/first-order arguments and example arguments; '
                 'non-trivial = base argument has a verdict and >= 3 steps')
